@@ -46,6 +46,12 @@ Hypothesis Hstreq2 : forall rows l, p_streq2 PM rows l = p_streq2 PS (map (map p
 Hypothesis Hrslice : forall rows st en,
   option_map (map (map phi)) (p_rslice PM rows st en) = p_rslice PS (map (map phi) rows) st en.
 
+(* string_array: the fixed-width byte view drops trailing NULs, so it is the rows only for NUL-free text *)
+Definition nulfree (rows : list (list Z)) : Prop := Forall (Forall (fun c => phi c <> 0)) rows.
+Variable sarr_sound : Prop.     (* e.g. "this variant of the code does not raise on all-empty rows" *)
+Hypothesis Hsarr : sarr_sound -> forall rows, nulfree rows -> p_sarr PM e rows = p_sarr PS e (map (map phi) rows).
+Definition sarr_ok (v : value) : Prop := match v with VR _ rows => nulfree rows | _ => True end.
+
 Definition rel_char (c : Z) : Prop := p_prep PS e c = option_map phi (p_prep PM e c).
 
 Definition mapv (v : value) : value :=
@@ -242,7 +248,7 @@ Qed.
 Ltac fin := unfold mapr, keep, bad; cbn [fst snd mapv mapo option_map]; try reflexivity.
 Ltac relc Hc c := rewrite (Hc c) by (simpl; auto).
 
-Lemma step_ragged_nat rows o : (forall c, In c (op_chars o) -> rel_char c) -> o <> SArr ->
+Lemma step_ragged_nat rows o : (forall c, In c (op_chars o) -> rel_char c) -> (o = SArr -> sarr_sound /\ nulfree rows) ->
   mapr (step_ragged PM e rows o) = step_ragged PS e (map (map phi) rows) o.
 Proof.
   intros Hc Hns. destruct o; unfold step_ragged; rewrite ?len_map; try (fin; fail).
@@ -308,7 +314,7 @@ Proof.
   - (* Ravel *) fin. rewrite concat_map. reflexivity.
   - (* Str *) fin. f_equal. f_equal. f_equal. rewrite firstn_map, map_map.
     rewrite <- (map_map (map phi) (text PS e)). rewrite map_map. apply map_ext. intros. symmetry. apply text_map.
-  - (* SArr *) congruence.
+  - (* SArr *) destruct (Hns eq_refl) as [Hss Hnf]. rewrite <- (Hsarr Hss rows Hnf). destruct (p_sarr PM e rows); fin.
   - (* RSlice *) rewrite <- Hrslice. destruct (p_rslice PM rows starts ends); fin.
   - (* Join *) relc Hc sep. destruct (p_prep PM e sep) as [sep'|]; fin. rewrite Hjoin. reflexivity.
   - (* StrEq *) rewrite prep_str_rel by (intros; apply Hc; assumption).
@@ -375,7 +381,7 @@ Proof.
 Qed.
 
 Theorem g_step_natural v o :
-  enc_of v = e -> (forall c, In c (op_chars o) -> rel_char c) -> o <> SArr ->
+  enc_of v = e -> (forall c, In c (op_chars o) -> rel_char c) -> (o = SArr -> sarr_sound /\ sarr_ok v) ->
   mapr (g_step PM v o) = g_step PS (mapv v) o.
 Proof.
   intros He Hc Hns. destruct v as [e' rows|e' s|e' c]; simpl in He; subst e'; simpl.
